@@ -14,9 +14,9 @@ exec(open(V + '/tools/claims.py').read())
 NA_DEFAULT = {}
 exec(open(V + '/tools/not_applicable.py').read())
 
-hook_commits = subprocess.run(['git', '-C', '/repo', 'log', '--format=%H %s', '--', 'zz_contracts_verif.go'],
+hook_commits = subprocess.run(['git', '-C', '/repo', 'log', '--format=%H %s'],
                               capture_output=True, text=True).stdout.strip().splitlines()
-hook_commits = [l.split()[0] for l in hook_commits]
+hook_commits = [l.split()[0] for l in hook_commits if l.split(' ', 1)[1].startswith('verif:')]
 
 checks = []
 na = []
@@ -43,7 +43,7 @@ m = {
  'setup_cmd': 'cd /verif/engine && GOFLAGS=-mod=vendor GOPROXY=off GOSUMDB=off GOTOOLCHAIN=local go build -o /verif/bin/gobv ./cmd/gobv',
  'hooks': {
   'guard': 'verif',
-  'enable': 'go build -tags verif (the only guarded file, /repo/zz_contracts_verif.go, is comment-only: contracts read by gobv)',
+  'enable': 'go test -tags verif (guarded files: /repo/zz_contracts_verif.go, comment-only contracts read by gobv as text; /repo/zz_hooks_verif.go, the scheduling hook verifBeforeCondWait used only by the replay of finding F6 — its call site in sync.go WaitCond calls a no-op (zz_hooks_noverif.go) when the tag is off). gobv itself analyses the production build (tag off).',
   'baseline_off_cmd': 'cd /repo && GOFLAGS=-mod=mod GOPROXY=off GOSUMDB=off GOTOOLCHAIN=local go test -json -vet=off -count=1 -timeout 25m ./...',
   'source_commits': hook_commits,
   'add_only': True,
